@@ -257,6 +257,86 @@ class World(object):
                     raise AnalysisError("%s:%d: %s is outside the analysable subset"
                                         % (m.relpath, getattr(n, "lineno", 0), bad))
 
+    # ------------------------------------------------------------------ shared mutable containers
+    _CONTAINER_CTORS = ("list", "dict", "set", "bytearray", "defaultdict", "OrderedDict", "deque", "Counter")
+    _MUTATING = ("append", "extend", "insert", "pop", "remove", "clear", "sort", "reverse", "update", "setdefault",
+                 "popitem", "add", "discard", "__setitem__", "__delitem__", "appendleft", "extendleft", "popleft", "move_to_end")
+
+    @classmethod
+    def _is_container_expr(cls, e):
+        if isinstance(e, (ast.List, ast.Dict, ast.Set, ast.ListComp, ast.DictComp, ast.SetComp)):
+            return True
+        return isinstance(e, ast.Call) and ((isinstance(e.func, ast.Name) and e.func.id in cls._CONTAINER_CTORS)
+                                            or (isinstance(e.func, ast.Attribute) and e.func.attr in cls._CONTAINER_CTORS))
+
+    def shared_containers(self):
+        """Containers that outlive a call and are mutated by some function body:
+        {('module', mod, name) | ('class', class qual, attr) | ('default', func node id, param)}.
+        Their contents depend on the call history of the process."""
+        if getattr(self, "_msc", None) is not None:
+            return self._msc
+        cand_mod, cand_cls, cand_def = set(), {}, {}
+        for m in self.mods.values():
+            for st in m.tree.body:
+                if isinstance(st, ast.Assign) and self._is_container_expr(st.value):
+                    for t in st.targets:
+                        if isinstance(t, ast.Name):
+                            cand_mod.add((m.name, t.id))
+                elif isinstance(st, ast.ClassDef):
+                    for c in st.body:
+                        if isinstance(c, ast.Assign) and self._is_container_expr(c.value):
+                            for t in c.targets:
+                                if isinstance(t, ast.Name):
+                                    cand_cls.setdefault(t.id, set()).add(m.name + "." + st.name)
+        for (m, qual, node) in self.functions():
+            a = node.args
+            names = [x.arg for x in a.args]
+            for nm, d in list(zip(names[len(names) - len(a.defaults):], a.defaults)) + \
+                    [(x.arg, d) for x, d in zip(a.kwonlyargs, a.kw_defaults) if d is not None]:
+                if self._is_container_expr(d):
+                    cand_def[(id(node), nm)] = node
+        mutated = set()
+        for (m, qual, node) in self.functions():
+            for n in ast.walk(node):
+                base = None
+                if isinstance(n, ast.Subscript) and isinstance(n.ctx, (ast.Store, ast.Del)):
+                    base = n.value
+                elif isinstance(n, ast.AugAssign) and isinstance(n.target, ast.Subscript):
+                    base = n.target.value
+                elif isinstance(n, ast.Call) and isinstance(n.func, ast.Attribute) and n.func.attr in self._MUTATING:
+                    base = n.func.value
+                if base is None:
+                    continue
+                if isinstance(base, ast.Name):
+                    # innermost enclosing function that binds the name as a parameter
+                    f = n
+                    hit = False
+                    while f is not None:
+                        f = getattr(f, "_parent", None)
+                        if isinstance(f, (ast.FunctionDef, ast.Lambda)):
+                            params = [x.arg for x in f.args.args + f.args.kwonlyargs]
+                            if base.id in params:
+                                if (id(f), base.id) in cand_def:
+                                    mutated.add(("default", id(f), base.id))
+                                hit = True
+                                break
+                            if any(isinstance(x, ast.Name) and isinstance(x.ctx, ast.Store) and x.id == base.id for x in ast.walk(f)):
+                                hit = True      # a local of that function
+                                break
+                    if not hit:
+                        v = self.static_lookup(m, base.id)
+                        if isinstance(v, tuple) and v[0] == "assign" and (v[1].name, v[2]) in cand_mod:
+                            mutated.add(("module", v[1].name, v[2]))
+                elif isinstance(base, ast.Attribute) and isinstance(base.value, ast.Name):
+                    if base.attr in cand_cls:
+                        for cq in cand_cls[base.attr]:
+                            mutated.add(("class", cq, base.attr))
+                    mv = self.static_lookup(m, base.value.id)
+                    if isinstance(mv, ModV) and (mv.name, base.attr) in cand_mod:
+                        mutated.add(("module", mv.name, base.attr))
+        self._msc = mutated
+        return mutated
+
     # ------------------------------------------------------------------ anchors
     def module(self, name):
         if name not in self.mods:
